@@ -3,6 +3,7 @@ CONSTANTS
   AddrNegCountPanic = TRUE
   OfflineSigSkipped = TRUE
   Level = 2
+  ExtraBases <- ExtraGen
 VIEW view
 PROPERTIES HeaderChecksOK RoundTripOK IdempotentOK ReproOK DeviationOK
 CONSTRAINT InitOut
